@@ -48,8 +48,8 @@ def modules():
     return ["chartparse"] + names
 
 
-def run_child(hist):
-    p = subprocess.run([PY, "-I", CHILD, core.REPO] + list(hist), capture_output=True, text=True, timeout=120)
+def run_child(hist, flags=()):
+    p = subprocess.run([PY, "-I"] + list(flags) + [CHILD, core.REPO] + list(hist), capture_output=True, text=True, timeout=120)
     if p.returncode != 0 or not p.stdout.strip():
         raise core.HarnessFault("import child failed for %r: %s" % (hist, p.stderr[-500:]))
     return json.loads(p.stdout.strip().splitlines()[-1])
@@ -164,13 +164,24 @@ def run_shard(shard, ctx):
             ctx.violation("merge-unsound", dict(history=list(h)), "history %r reaches module table %s but the merged graph predicts %s: two import orders give different namespaces" % (list(h), out["fingerprint"], pf))
         if len(h) == len(mods) and set(h) == set(mods) and full and out["fingerprint"] != full[0] and not bad:
             ctx.violation("order-dependent-namespace", dict(history=list(h), other=list(states[full[0]]["rep"])), "full permutation %r leaves a different module table than %r" % (list(h), list(states[full[0]]["rep"])))
+    # the way the fresh interpreter is started is part of "a fresh interpreter": every first import and the full
+    # import also with assertions stripped (-O) and with docstrings stripped as well (-OO)
+    jobs = [((m,), fl) for fl in (("-O",), ("-OO",)) for m in mods] + [(tuple(mods), fl) for fl in (("-O",), ("-OO",))]
+    outs = list(pool.map(lambda j: run_child(j[0], j[1]), jobs))
+    for (h, fl), out in zip(jobs, outs):
+        ctx.case(("flags", fl, h))
+        ctx.evaluations += 1
+        ctx.hist["optimised_interpreter_imports"] += 1
+        bad = [r for r in out["results"] if r[1] != "ok"] + [["star:" + mn, why] for mn, why in out.get("star_failures", ())]
+        if bad:
+            ctx.violation("import-fails:%s:%s" % (fl[0], bad[0][0]), dict(history=list(h), flags=list(fl)), "import %s fails in a fresh interpreter started with %s (history %r): %s" % (bad[0][0], fl[0], list(h), bad[0][1]), script=SCRIPT.format(hist=list(h)).replace('[sys.executable, "-I", "-c"', '[sys.executable, "-I", "%s", "-c"' % fl[0]))
     pool.shutdown()
     # states / transitions of the merged graph (root is added by the runner); un-merged runs are traces
     ctx.nodes, ctx.edges = graph[0] - 1, graph[1]
 
 
 def replay(case):
-    out = run_child(case["history"])
+    out = run_child(case["history"], case.get("flags", ()))
     bad = [r for r in out["results"] if r[1] != "ok"]
     if bad:
         return [dict(key="import-fails:" + bad[0][0], msg=bad[0][1], case=case)]
